@@ -12,10 +12,12 @@
   * `s.Wf`: every stored value of the BMC fits the wire field that reports it (the only assumption on states);
     `c.InRange`: the arguments are values the real code puts on the wire unchanged.
 
-  Theorems (all for ALL in-range arguments and ALL conforming BMC states; nothing is `_partial`: the sum
-  type `Call` has a constructor for every operation of the harness' op table, and every one is proved).
+  Theorems (all for ALL in-range arguments and ALL conforming BMC states; the sum type `Call` has a constructor for
+  every single-exchange operation of the harness' op table, and every one is proved.  One `_partial`:
+  get_dcmi_sensor_record_ids, a sequence of three exchanges outside `Call`, refines the BMC only while no entity has
+  more than 8 sensors - the library does not page, `dcmi_sensor_ids_not_paged_counterexample`).
   1. `write_*`   : `(api_set_X args).run s = (Spec.set_X (denote args) s, ok None)`          (33)
-  2. `read_*`    : `(api_get_X addr).run s = (s, ok (Spec.get_X addr s))`                     (32)
+  2. `read_*`    : `(api_get_X addr).run s = (s, ok (Spec.get_X addr s))`                     (36, DCMI included)
   3. `model_refines_oracle`, `wf_invariant`, `history_refines`, `read_after_history`,
      `read_depends_on_state_only` : the generic step and the induction over histories — the main theorem.
   4. `table_*`   : laws of the generated conversion tables.
@@ -315,6 +317,80 @@ theorem read_get_component_description (id : Nat) (s : BmcState) (h : id < 256) 
     (api_get_component_description id).run s =
       present (s, if has_component id s then .text (get_component_description id s) else .error ccHpmInvalidComponent) :=
   get_component_description_refines id s h (descr_wf id s hw)
+
+/-! ### DCMI 1.5 (pyipmi/dcmi.py) -/
+
+/-- get_dcmi_capabilities(selector): conformance major / minor, parameter revision and parameter data of the addressed
+parameter, exactly as the BMC holds them -/
+theorem read_get_dcmi_capabilities (sel : Nat) (s : BmcState) (h : sel < 256) (hw : s.Wf) :
+    (api_get_dcmi_capabilities sel).run s =
+      (s, .ok (.dcmiCaps s.dcmi.confMajor s.dcmi.confMinor (get_dcmi_capabilities sel s).revision
+                 (get_dcmi_capabilities sel s).data)) :=
+  get_dcmi_capabilities_refines sel s h hw.dcmiMajor hw.dcmiMinor
+
+/-- get_power_reading(mode, attributes): the seven values of the reading the BMC holds for (mode, attributes)
+(`GetPowerReadingRsp.__not_implemented__` changes nothing: the attribute is never read) -/
+theorem read_get_power_reading (mode attrs : Nat) (s : BmcState) (h1 : mode < 256) (h2 : attrs < 256) (hw : s.Wf) :
+    (api_get_power_reading mode attrs).run s = (s, .ok (.powerReading (get_power_reading mode attrs s))) :=
+  get_power_reading_refines mode attrs s h1 h2 (powerReading_wf mode attrs s hw)
+
+/- get_dcmi_sensor_record_ids(), FULL STRENGTH (what the name of the method promises; NOT provable, see
+   `dcmi_sensor_ids_not_paged_counterexample`):
+
+     theorem read_get_dcmi_sensor_record_ids (s : BmcState) (hw : s.Wf) :
+         api_get_dcmi_sensor_record_ids s = (s, .ok (.natList (get_dcmi_sensor_record_ids s)))
+
+   A Get DCMI Sensor Info response carries at most 8 record ids (DCMI 1.5 table 6-15, response byte 4); the remaining
+   instances are fetched with Entity Instance Start.  The library asks every entity once, with Entity Instance Start 0,
+   and ignores total_number_of_instances.  Proved instead: the exact result for EVERY conforming BMC
+   (`read_get_dcmi_sensor_record_ids_first_eight`) and the refinement for the BMCs with at most 8 instances per entity. -/
+
+/-- what the call returns from ANY conforming BMC: the first eight record ids of inlet, CPU and baseboard temperature
+sensors, the BMC untouched -/
+theorem read_get_dcmi_sensor_record_ids_first_eight (s : BmcState) (hw : s.Wf) :
+    api_get_dcmi_sensor_record_ids s =
+      (s, .ok (.natList ((get_dcmi_sensors 1 0x40 s).take 8 ++ (get_dcmi_sensors 1 0x41 s).take 8 ++
+                         (get_dcmi_sensors 1 0x42 s).take 8))) :=
+  get_dcmi_sensor_record_ids_run s hw
+
+/-- PARTIAL (missing: BMCs with more than 8 instances of one entity - the library does not page) -/
+theorem read_get_dcmi_sensor_record_ids_partial (s : BmcState) (hw : s.Wf)
+    (h8 : ∀ e ∈ [0x40, 0x41, 0x42], (get_dcmi_sensors 1 e s).length ≤ 8) :
+    api_get_dcmi_sensor_record_ids s = (s, .ok (.natList (get_dcmi_sensor_record_ids s))) :=
+  get_dcmi_sensor_record_ids_refines_partial s hw h8
+
+/-- a conforming BMC with nine CPU temperature sensors (record ids 0101h … 0109h) -/
+def dcmiNineState : BmcState :=
+  { dcmi := { sensors := ({} : Map (List Nat)).set 0x41 [0x101, 0x102, 0x103, 0x104, 0x105, 0x106, 0x107, 0x108, 0x109] } }
+
+/-- the BMC reports "9 instances, 8 record ids in this response" and holds the ninth ready under Entity Instance
+Start 9; get_dcmi_sensor_record_ids() never asks for it: record id 0109h is missing from its result -/
+theorem dcmi_sensor_ids_not_paged_counterexample :
+    dcmiNineState.Wf ∧
+    (handle dcmiNineState { netfn := 0x2c, lun := 0, cmd := 7, data := [0xdc, 1, 0x41, 0, 0] }).2 =
+      [0, 0xdc, 9, 8, 1, 1, 2, 1, 3, 1, 4, 1, 5, 1, 6, 1, 7, 1, 8, 1] ∧
+    (handle dcmiNineState { netfn := 0x2c, lun := 0, cmd := 7, data := [0xdc, 1, 0x41, 0, 9] }).2 = [0, 0xdc, 9, 1, 9, 1] ∧
+    get_dcmi_sensor_record_ids dcmiNineState =
+      [0x40, 0x101, 0x102, 0x103, 0x104, 0x105, 0x106, 0x107, 0x108, 0x109, 0x242] ∧
+    (api_get_dcmi_sensor_record_ids dcmiNineState).2 =
+      .ok (.natList [0x40, 0x101, 0x102, 0x103, 0x104, 0x105, 0x106, 0x107, 0x108, 0x242]) ∧
+    (api_get_dcmi_sensor_record_ids dcmiNineState).2 ≠ .ok (.natList (get_dcmi_sensor_record_ids dcmiNineState)) := by
+  have hw : dcmiNineState.Wf := { wf_init with dcmiSensors := (Map.All.empty _).set _ _ (by decide) }
+  refine ⟨hw, by decide, by decide, by decide, ?_, ?_⟩
+  · rw [read_get_dcmi_sensor_record_ids_first_eight _ hw]; decide
+  · rw [read_get_dcmi_sensor_record_ids_first_eight _ hw]; decide
+
+/-- the DCMI reads on the power-on BMC are not trivial -/
+example :
+    ((api_get_dcmi_capabilities 2).run {}).2 = .ok (.dcmiCaps 1 5 2 [2, 3, 0]) ∧
+    ((api_get_power_reading 1 0).run {}).2 =
+      .ok (.powerReading { current := 356, minimum := 56, maximum := 456, average := 306, timestamp := 0x5f000100,
+                           period := 17000, state := 0x40 }) ∧
+    (api_get_dcmi_sensor_record_ids {}).2 = .ok (.natList [0x40, 0x141, 0x242]) := by
+  refine ⟨?_, ?_, ?_⟩
+  · rw [read_get_dcmi_capabilities 2 _ (by decide) wf_init]; decide
+  · rw [read_get_power_reading 1 0 _ (by decide) (by decide) wf_init]; decide
+  · rw [read_get_dcmi_sensor_record_ids_first_eight _ wf_init]; decide
 
 /-! ## 3. the generic step and history independence (main theorem) -/
 
